@@ -85,6 +85,17 @@ class Ob:
                 lost = [n for n in names if n not in now_required and n not in ("self", "cls")]
                 if lost:
                     drifted[f.name] = f"`{f.name}` no longer requires {lost} (the calling convention of a pinned function has changed)"
+            try:
+                sigs = _json.loads((pathlib.Path(__file__).parent / "known_signatures.json").read_text())
+            except Exception:  # noqa: BLE001
+                sigs = {}
+            for q, names in sigs.items():
+                f = cx.model.functions.get(q)
+                if f is None or f.name in drifted:
+                    continue
+                gone = [n for n in names if f.param(n) is None]
+                if gone:
+                    drifted[f.name] = f"`{f.name}` no longer has the parameter(s) {gone} (renamed or removed: the calling convention of a pinned function has changed)"
             cx.model.__dict__["_drifted"] = drifted
         if not drifted:
             return None
